@@ -12,61 +12,68 @@ NumArgs(args) == [i \in 1..Len(args) |-> AsNum(args[i])]
 AnyUnk(ns)    == \E i \in 1..Len(ns) : ns[i].cls = "unk"
 AnyNotNum(ns) == \E i \in 1..Len(ns) : ns[i].cls = "notnum"
 
-RECURSIVE SumFrom(_, _)
-SumFrom(ns, i) == IF i > Len(ns) THEN 0 ELSE ns[i].n + SumFrom(ns, i + 1)
-\* products are guarded step by step so that TLC's 32-bit integers never overflow
-RECURSIVE ProdFrom(_, _, _)
-ProdFrom(ns, i, acc) == IF i > Len(ns) THEN [ok |-> TRUE, n |-> acc]
-                        ELSE IF ~InRange(acc * ns[i].n) THEN [ok |-> FALSE]
-                        ELSE ProdFrom(ns, i + 1, acc * ns[i].n)
+AnyRat(ns)    == \E i \in 1..Len(ns) : ns[i].cls = "rat"
 
-NumResult(n) == IF InRange(n) THEN POut(<<VNum(n)>>) ELSE PErr(OOM("number leaves the model range"))
+\* Exact arithmetic on fractions ("exactness-preserving commands"); every intermediate result must
+\* stay inside the model range, else OutOfModel.
+FOk(n, d)  == LET m == MkNum(n, d) IN IF m.ok THEN [ok |-> TRUE, f |-> NumFrac(m.v)] ELSE [ok |-> FALSE]
+FAdd(x, y) == FOk(x.n * y.d + y.n * x.d, x.d * y.d)
+FSub(x, y) == FOk(x.n * y.d - y.n * x.d, x.d * y.d)
+FMul(x, y) == FOk(x.n * y.n, x.d * y.d)
+FDiv(x, y) == IF y.n < 0 THEN FOk(-(x.n * y.d), x.d * (-y.n)) ELSE FOk(x.n * y.d, x.d * y.n)     \* y.n # 0
+FApply(op, x, y) == CASE op = "+" -> FAdd(x, y) [] op = "-" -> FSub(x, y) [] op = "*" -> FMul(x, y) [] OTHER -> FDiv(x, y)
+RECURSIVE FoldFrac(_, _, _, _)
+\* acc op fs[i] op fs[i+1] ...  -> [ok, f]
+FoldFrac(op, fs, i, acc) == IF i > Len(fs) THEN [ok |-> TRUE, f |-> acc]
+                            ELSE LET r == FApply(op, acc, fs[i]) IN
+                                 IF ~r.ok THEN r ELSE FoldFrac(op, fs, i + 1, r.f)
+FracResult(r) == IF ~r.ok THEN PErr(OOM("number leaves the model range"))
+                 ELSE POut(<<MkNum(r.f.n, r.f.d).v>>)
 
-Chain(ns, Rel(_, _)) == \A i \in 1..(Len(ns) - 1) : Rel(ns[i].n, ns[i + 1].n)
-Lt(a, b) == a < b
-Le(a, b) == a <= b
-Gt(a, b) == a > b
-Ge(a, b) == a >= b
-EqN(a, b) == a = b
+FLt(x, y) == x.n * y.d < y.n * x.d
+FEq(x, y) == x.n * y.d = y.n * x.d
+ChainF(fs, Rel(_, _)) == \A i \in 1..(Len(fs) - 1) : Rel(fs[i], fs[i + 1])
+RLt(a, b) == FLt(a, b)
+RLe(a, b) == ~FLt(b, a)
+RGt(a, b) == FLt(b, a)
+RGe(a, b) == ~FLt(a, b)
+REq(a, b) == FEq(a, b)
 
 \* Numeric commands ("Strings and numbers": typed numbers or number-like strings)
 Numeric(name, args) ==
-  LET ns == NumArgs(args) IN
+  LET ns == NumArgs(args)
+      fs == [i \in 1..Len(ns) |-> FracOf(ns[i])]
+      Zero == [n |-> 0, d |-> 1]
+      One == [n |-> 1, d |-> 1]
+  IN
   \* the number of arguments is checked before their types
   IF (name \in {"!=", "%"} /\ Len(args) # 2) \/ (name = "-" /\ Len(args) = 0) THEN PErr(CArity)
   ELSE IF AnyUnk(ns) THEN PErr(OOM("string used as a number is not a canonical decimal"))
   ELSE IF AnyNotNum(ns) THEN PErr(CType)
-  ELSE CASE name = "+" -> NumResult(SumFrom(ns, 1))
-         [] name = "-" -> IF Len(ns) = 0 THEN PErr(CArity)
-                          ELSE IF Len(ns) = 1 THEN NumResult(-ns[1].n)
-                          ELSE NumResult(ns[1].n - SumFrom(ns, 2))
-         [] name = "*" -> LET p == ProdFrom(ns, 1, 1) IN IF p.ok THEN NumResult(p.n) ELSE PErr(OOM("number leaves the model range"))
-         [] name = "/"  -> \* left to right; exact results only (rationals are outside the model)
-                           IF Len(ns) = 0 THEN PErr(OOM("/ without arguments"))
-                           ELSE IF Len(ns) = 1 THEN
+  ELSE CASE name = "+" -> FracResult(FoldFrac("+", fs, 1, Zero))
+         [] name = "-" -> IF Len(fs) = 1 THEN FracResult(FSub(Zero, fs[1]))
+                          ELSE FracResult(FoldFrac("-", fs, 2, fs[1]))
+         [] name = "*" -> FracResult(FoldFrac("*", fs, 1, One))
+         [] name = "/" -> \* left to right; "Dividing by exact 0 raises an exception"
+                           IF Len(fs) = 0 THEN PErr(OOM("/ without arguments"))
+                           ELSE IF Len(fs) = 1 THEN
                                   \* Unspecified: `/ 0`.  "/ $y is equivalent to / 1 $y" (an exception) and "when
                                   \* $x-num is exact 0 and no $y-num is exact 0, the result is exact 0" disagree.
-                                  (IF ns[1].n = 0 THEN PErr(OOM("Unspecified: / 0"))
-                                   ELSE IF ns[1].n \in {1, -1} THEN NumResult(ns[1].n) ELSE PErr(OOM("rational number")))
-                           ELSE IF \E i \in 2..Len(ns) : ns[i].n = 0 THEN PErr(CBadValue)   \* "Dividing by exact 0 raises an exception"
-                           ELSE LET d == ProdFrom(ns, 2, 1) IN
-                                IF ~d.ok THEN PErr(OOM("number leaves the model range"))
-                                ELSE LET q == IF d.n < 0 THEN -d.n ELSE d.n
-                                         a == IF ns[1].n < 0 THEN -ns[1].n ELSE ns[1].n
-                                     IN IF a % q # 0 THEN PErr(OOM("rational number"))
-                                        ELSE NumResult(IF (ns[1].n < 0) = (d.n < 0) THEN a \div q ELSE -(a \div q))
-         [] name = "<"  -> POut(<<VBool(Chain(ns, Lt))>>)
-         [] name = "<=" -> POut(<<VBool(Chain(ns, Le))>>)
-         [] name = ">"  -> POut(<<VBool(Chain(ns, Gt))>>)
-         [] name = ">=" -> POut(<<VBool(Chain(ns, Ge))>>)
-         [] name = "==" -> POut(<<VBool(Chain(ns, EqN))>>)
-         [] name = "!=" -> IF Len(ns) # 2 THEN PErr(CArity) ELSE POut(<<VBool(ns[1].n # ns[2].n)>>)
-         [] name = "%"  -> IF Len(ns) # 2 THEN PErr(CArity)
+                                  (IF fs[1].n = 0 THEN PErr(OOM("Unspecified: / 0")) ELSE FracResult(FDiv(One, fs[1])))
+                           ELSE IF \E i \in 2..Len(fs) : fs[i].n = 0 THEN PErr(CBadValue)
+                           ELSE FracResult(FoldFrac("/", fs, 2, fs[1]))
+         [] name = "<"  -> POut(<<VBool(ChainF(fs, RLt))>>)
+         [] name = "<=" -> POut(<<VBool(ChainF(fs, RLe))>>)
+         [] name = ">"  -> POut(<<VBool(ChainF(fs, RGt))>>)
+         [] name = ">=" -> POut(<<VBool(ChainF(fs, RGe))>>)
+         [] name = "==" -> POut(<<VBool(ChainF(fs, REq))>>)
+         [] name = "!=" -> POut(<<VBool(~FEq(fs[1], fs[2]))>>)
+         [] name = "%"  -> IF AnyRat(ns) THEN PErr(CBadValue)          \* "Both arguments must be exact integers"
                            ELSE IF ns[2].n = 0 THEN PErr(CBadValue)
                            ELSE LET a == ns[1].n  b == ns[2].n
                                     m == IF b < 0 THEN -b ELSE b
                                     r == IF a >= 0 THEN a % m ELSE -((-a) % m)   \* sign of $x
-                                IN NumResult(r)
+                                IN POut(<<VNum(r)>>)
 
 NumericNames == {"+", "-", "*", "/", "<", "<=", ">", ">=", "==", "!=", "%"}
 
@@ -85,7 +92,7 @@ PureNames == NumericNames \cup {"put", "nop", "eq", "not-eq", "not", "bool", "ki
                                 "to-string", "has-key", "has-value", "assoc", "dissoc", "conj"}
 
 KindBytes(v) == CASE v.k = "nil" -> <<110,105,108>> [] v.k = "bool" -> <<98,111,111,108>>
-                  [] v.k = "str" -> <<115,116,114,105,110,103>> [] v.k = "num" -> <<110,117,109,98,101,114>>
+                  [] v.k = "str" -> <<115,116,114,105,110,103>> [] v.k \in {"num", "rat"} -> <<110,117,109,98,101,114>>
                   [] v.k = "list" -> <<108,105,115,116>> [] v.k = "map" -> <<109,97,112>>
                   [] v.k = "fn" -> <<102,110>> [] v.k = "exc" -> <<101,120,99,101,112,116,105,111,110>>
                   [] OTHER -> <<63>>
@@ -103,7 +110,8 @@ Pure(name, args) ==
                            ELSE POut([i \in 1..Len(args) |-> VStr(KindBytes(args[i]))])
     [] name = "num" -> Exactly(1, args,
                          LET c == AsNum(args[1]) IN
-                         IF c.cls = "int" THEN POut(<<VNum(c.n)>>)
+                         IF c.cls = "rat" THEN POut(<<args[1]>>)
+                         ELSE IF c.cls = "int" THEN POut(<<VNum(c.n)>>)
                          ELSE IF c.cls = "unk" THEN PErr(COOM)
                          ELSE IF args[1].k = "str" THEN PErr(CBadValue) ELSE PErr(CType))
     [] name = "to-string" ->
